@@ -311,8 +311,8 @@ func c09Info(sc c09Scenario) ev.Info {
 func TestVerifC09Remote(t *testing.T) {
 	r := ev.Get("C09")
 	r.Rule("remote / smtp / lmtp units: history of 1-4 transactions through ONE target instance (shared connection cache) to a scripted next hop (go-smtp server with scripted replies) with SMTPUTF8 advertised " +
-		"or not (LMTP or SMTP); recipient lists of 1-4 addresses (ASCII, case variant, IDN domain, non-ASCII local part, second domain, duplicates), null / ASCII / EAI sender, 0-2 scripted failures at " +
-		"MAIL / one RCPT / DATA / per-recipient LMTP status. Oracle: the multiset of keys passed to StatusCollector.SetStatus equals the multiset of addresses whose AddRcpt returned nil in that " +
+		"or not (LMTP or SMTP), DSN offered or not (remote); recipient lists of 1-4 addresses (ASCII, case variant, IDN domain, non-ASCII local part, second domain, duplicates, local parts that are quoted on the wire), null / ASCII / EAI sender, 0-2 scripted failures at " +
+		"MAIL / one RCPT / DATA / per-recipient LMTP status, a reply to one RCPT that comes later than command_timeout (remote). Oracle (remote, additionally): an address the next hop refuses is not accepted by the target, the next hop is asked only about addresses the target was given. Oracle: the multiset of keys passed to StatusCollector.SetStatus equals the multiset of addresses whose AddRcpt returned nil in that " +
 		"transaction (set equality when the list has duplicates). pipeline unit: 1-to-N recipient rewrites in front of a per-recipient target; every reported key is an address the client supplied. " +
 		"Non-trivial = an address needed conversion for the next hop, or a cached connection was reused, or a duplicate recipient. Distinct = distinct scenario.")
 	ev.Run(t, r, ev.Spec[c09Scenario]{Name: "remote", Journal: true, N: r.N, Gen: c09Gen, Run: c09Run, Info: c09Info})
